@@ -181,10 +181,13 @@ structure RCfg where
   trimTokens : Bool
   /-- `Capabilities::read_xml` has a Comment arm (pinned: none) -/
   capsComment : Bool
+  /-- `ServerMsg::from_xml` accepts the message element only while none has been read (pinned: a
+      second root element overwrites the first) -/
+  oneRoot : Bool
   deriving DecidableEq, Repr, Inhabited
 
-def RCfg.pinned : RCfg := { loadOkGuard := false, declArm := false, trimTokens := false, capsComment := false }
-def RCfg.fixed : RCfg := { loadOkGuard := true, declArm := true, trimTokens := true, capsComment := true }
+def RCfg.pinned : RCfg := { loadOkGuard := false, declArm := false, trimTokens := false, capsComment := false, oneRoot := false }
+def RCfg.fixed : RCfg := { loadOkGuard := true, declArm := true, trimTokens := true, capsComment := true, oneRoot := true }
 
 /-- the text a token-valued leaf is parsed from -/
 def RCfg.tok (c : RCfg) (s : String) : String := if c.trimTokens then trim s else s
@@ -353,7 +356,7 @@ def fromXmlReply (c : RCfg) (k : ReplyKind) : (fuel : Nat) → (this : Option (N
     match ev with
     | .error => .error .xml
     | .start t =>
-      if t.is BASE "rpc-reply" then
+      if t.is BASE "rpc-reply" && !(c.oneRoot && this.isSome) then
         (match readReplyElem c k fuel t rest with
          | .ok (v, r) => fromXmlReply c k fuel (some v) r
          | .error e => .error e)
